@@ -1,4 +1,5 @@
 import MsqProofs.Props.C03RL
+import MsqProofs.Props.C03R3
 /-!
 # Theorem coverage of a stream of texts (run with `lake env lean --run MsqProofs/Tools/FragCov.lean < lines`)
 
@@ -8,6 +9,11 @@ HYPOTHESES of the registered theorems hold of the parsed tree — they are decid
 * `T` token level: `TR.FragAny d s` — then `C03.tstatement_any` / `C01.statement_round_trip_tokens_any` apply to the tree: its token rendering parses back to it;
 * `X` text level: additionally `printableAny`, `leafAnyB` (payload conditions) and the dialect pre-pass leaving the printed text alone — then
   `C03.tstatement_any_text` / `C01.statement_round_trip_text_any` apply: the PRINTED TEXT of the tree parses back to it and prints again to the same text.
+
+* `U` token level by the THIRD fragment only: not `TR.FragAny`, but `TR3.FragAny d s` (back-quoted aliases, decimal / hexadecimal / bit literals:
+  Props/C03R3.lean) — then `C03.tstatement_any3` / `C03.tstatement_union3` / `C01.statement_round_trip_tokens_any3` apply.  `X`, `T` keep their
+  meaning; the old `-` (outside `TR.FragAny`) is `U` + `-`.  A statement in `TR.FragAny` and outside `TR3.FragAny` would contradict the (unproved)
+  inclusion: it is answered `M` (never seen).
 
 So for an accepted input whose tree answers `X`, the round trip of C01 is a theorem (about the models), not a test.  The harness reports the fractions.
 This is a measurement tool, not part of any proof. -/
@@ -34,7 +40,8 @@ def judge (d : Gen.D) (s : Stmt) : String :=
   let t := TR.FragAny d s
   let x := t && LL2.Any.printableAny d s && C03.AnyText.leafAnyB d s &&
     (match PR.prStmt d s with | .ok str => dialectPre d str.toList == str.toList | .error _ => false)
-  kindOf s ++ ":" ++ (if x then "X" else if t then "T" else "-")
+  let u := TR3.FragAny d s
+  kindOf s ++ ":" ++ (if t && !u then "M" else if x then "X" else if t then "T" else if u then "U" else "-")
 
 def respond (line : String) : String :=
   match line.splitOn " " with
